@@ -40,6 +40,9 @@ type Violation struct {
 }
 
 type Exec struct {
+	wantWitness func() bool
+	witness     []VecEntry
+	witReq      bool
 	P    *Program
 	sol  *Solver
 	mode Mode
@@ -375,7 +378,8 @@ func (e *Exec) recordViolation(kind, label, msg string) {
 	e.recordViolationVals(kind, label, msg, vals)
 }
 
-func (e *Exec) recordViolationVals(kind, label, msg string, vals map[string]string) {
+// modelVec fills the input vector of the current path from a solver model.
+func (e *Exec) modelVec(vals map[string]string) ([]VecEntry, string) {
 	vec := make([]VecEntry, len(e.vec))
 	copy(vec, e.vec)
 	for i := range vec {
@@ -389,11 +393,47 @@ func (e *Exec) recordViolationVals(kind, label, msg string, vals map[string]stri
 				}
 			}
 			if !ok {
-				e.undecided = append(e.undecided, fmt.Sprintf("%s %q: cannot parse model value %q", kind, label, vals[vec[i].Name]))
-				return
+				return nil, vals[vec[i].Name]
 			}
 			vec[i].Val = v
 		}
+	}
+	return vec, ""
+}
+
+// captureWitness asks the solver for one concrete input that follows the completed path (used to cross-validate the
+// engine against the natively compiled harness).
+func (e *Exec) captureWitness() {
+	e.witness = nil
+	if e.sol.Check() != "sat" {
+		return
+	}
+	var names []string
+	for _, v := range e.vec {
+		if v.Name != "" {
+			names = append(names, v.Name)
+		}
+	}
+	vals := map[string]string{}
+	if len(names) > 0 {
+		var err error
+		if vals, err = e.sol.GetValues(names); err != nil {
+			return
+		}
+	}
+	if vec, bad := e.modelVec(vals); bad == "" {
+		e.witness = vec
+		if e.witness == nil {
+			e.witness = []VecEntry{}
+		}
+	}
+}
+
+func (e *Exec) recordViolationVals(kind, label, msg string, vals map[string]string) {
+	vec, bad := e.modelVec(vals)
+	if bad != "" {
+		e.undecided = append(e.undecided, fmt.Sprintf("%s %q: cannot parse model value %q", kind, label, bad))
+		return
 	}
 	e.viols = append(e.viols, Violation{Harness: e.hname, Label: label, Kind: kind, Msg: msg, Pos: e.posStr(e.curPos),
 		Vec: vec, Trace: append([]Decision{}, e.trace...), Model: vals})
